@@ -21,7 +21,7 @@ var lightScenario = map[string]bool{"S25-sm2ec-order-field-helpers-two-threads":
 
 // tierDependent lists the scenarios whose shared objects are implemented differently per CPU dispatch tier
 // (SM4 block / AEAD / mode objects, SM3 KDF lanes); only these are repeated on the non-default tiers.
-var tierDependent = map[string]bool{"S17-zuc-independent-objects": true, "S18-sm4-modes-independent-objects": true, "S19-hash-mac-drbg-padding-independent-objects": true, "S8-sm4-shared-block-aead": true, "S12-sm4-shared-block-modes": true, "S9-sm3-constructors": true, "S11-sm9-encrypt-user-key": true}
+var tierDependent = map[string]bool{"S17-zuc-independent-objects": true, "S18-sm4-modes-independent-objects": true, "S19-hash-mac-drbg-padding-independent-objects": true, "S8-sm4-shared-block-aead": true, "S12-sm4-shared-block-modes": true, "S29-aead-first-use-by-threads": true, "S9-sm3-constructors": true, "S11-sm9-encrypt-user-key": true}
 
 func (Prop) SelfTest() error { return nil }
 
